@@ -265,8 +265,14 @@ func (c *Ctx) Finish() int {
 	}
 	if c.Replay == "" {
 		b, _ := json.MarshalIndent(ev, "", " ")
-		_ = os.MkdirAll(filepath.Join(VerifRoot, "evidence"), 0o755)
-		if err := os.WriteFile(filepath.Join(VerifRoot, "evidence", c.ID+".json"), append(b, '\n'), 0o644); err != nil {
+		// evidence/ describes runs against /repo itself; a run against a scratch copy of the tree (VERIF_REPO, development and
+		// regression runs) leaves it alone and writes under .work/
+		evDir := filepath.Join(VerifRoot, "evidence")
+		if RepoRoot != "/repo" && VerifRoot == "/verif" {
+			evDir = filepath.Join(VerifRoot, ".work", "evidence-scratch")
+		}
+		_ = os.MkdirAll(evDir, 0o755)
+		if err := os.WriteFile(filepath.Join(evDir, c.ID+".json"), append(b, '\n'), 0o644); err != nil {
 			fmt.Printf("INCONCLUSIVE property=%s cannot write evidence: %v\n", c.ID, err)
 			return ExitInconclusive
 		}
